@@ -145,6 +145,19 @@ func cmdCheck(args []string) int {
 		writeEvidence(evPath, prop, *tier, seed, nil, nil, 0, 0, violations, time.Since(t0).Seconds(), nil, nil, nil, 0, 0)
 		return 1
 	}
+	// clauses tagged for another property of a shared function are not part of this check
+	for _, fr := range frs {
+		if fr.Enc == nil {
+			continue
+		}
+		var keep []*Obligation
+		for _, o := range fr.Enc.obls {
+			if o.Prop == "" || o.Prop == prop {
+				keep = append(keep, o)
+			}
+		}
+		fr.Enc.obls = keep
+	}
 	vs := runAll(frs, timeout, *jobs, replayDir)
 	// thorough: re-decide with a second solver where the first answer was unsat
 	agree, disagree := 0, 0
@@ -175,12 +188,23 @@ func cmdCheck(args []string) int {
 	assumptions := map[string]bool{}
 	var samples []evSample
 	smoke := 0
+	// a function with a failed obligation assumes that obligation afterwards; its canaries may then
+	// be refuted for that reason alone and are not reported separately
+	failedFn := map[string]bool{}
+	for _, v := range vs {
+		if !v.Obl.Smoke && !v.Obl.Canary && v.Status != "unsat" {
+			failedFn[v.Fn.Key] = true
+		}
+	}
 	for _, v := range vs {
 		o := v.Obl
 		solverTime += v.Time
+		if o.Prop != "" && o.Prop != prop {
+			continue // clause tagged for another property of the same function
+		}
 		if o.Smoke || o.Canary {
 			smoke++
-			if v.Status == "unsat" {
+			if v.Status == "unsat" && !(o.Canary && failedFn[v.Fn.Key]) {
 				what := "contradictory precondition or assumptions (smoke check refuted)"
 				if o.Canary {
 					what = "vacuous: `false` is provable at a reachable return"
